@@ -220,6 +220,8 @@ def run(ctx):
                    f'known by its alias, an un-aliased one by the suffixes of its name; a member never takes over the qualifier of another member (a condition on the '
                    f'model would be pushed into the table fetch and the model would lose its argument)', file=PJ, line=gjs.lineno,
                    witness='select * from mindsdb.sales join int1.sales s on ... where sales.horizon = 7')
+    from .C08 import check_condition_scope
+    check_condition_scope(ctx, fn, 'C14.attribution')
     # ---- ... and the scope survives plan_join_tables: a column written with the full name of its table is still that table's after the planner has normalised the
     # identifiers of the query (a table and a model with the same last name, neither aliased)
     pjt_fn = fn.get('plan_join_tables')
